@@ -42,6 +42,7 @@ class Harness(cm.BaseB):
         out += [{"k": "subsets", "form": f} for f in ("asc", "desc", "dup")]
         out += [{"k": "seq", "first": i, "maxlen": 3 if tier == "quick" else 4} for i in range(16)]
         out += [{"k": "evo", "lo": lo} for lo in range(1, 256, 32)]
+        out.append({"k": "mutate"})
         return out
 
     def cases(self, chunk):
@@ -82,6 +83,12 @@ class Harness(cm.BaseB):
                             yield {"ep": ep, "tip": coll, "invalid": True}
                 for ep in ("prep", "aspirate_well", "dispense", "transfer_e", "transfer_f"):
                     yield {"ep": ep, "tip": base + base}
+        elif k == "mutate":
+            # the caller keeps one list of tips, edits it in place between two calls and passes the same object again
+            for ep in ("prep", "aspirate_well", "dispense_well", "aspirate", "dispense", "transfer_e", "transfer_f"):
+                for first in ([1, 2], [{"$tip": "T8"}], [3, 3, 1]):
+                    for edit in (["append", 3], ["append", {"$tip": "T5"}], ["set", [8]], ["set", [5, 8]], ["set", [2, 1]], ["pop"], ["append", 9], ["append", {"$tip": "Any"}], ["set", [0]]):
+                        yield {"k": "mutate", "ep": ep, "tip": first, "edit": edit}
         elif k == "subsets":
             for m in range(1, 256):
                 members = [t for t in range(1, 9) if m >> (t - 1) & 1]
@@ -113,13 +120,79 @@ class Harness(cm.BaseB):
                 for fi, tips in enumerate(forms):
                     for ep in ("evo_aspirate", "evo_dispense", "evo_wash"):
                         yield {"ep": ep, "tip": tips, "form": fi}
+                # one of the selected tips moves nothing: it is still selected
+                for ep in ("evo_aspirate", "evo_dispense"):
+                    yield {"ep": ep, "tip": members, "form": 0, "zero": len(members) // 2}
+                    if len(members) > 1:
+                        yield {"ep": ep, "tip": members, "form": 0, "zero": len(members) - 1}
             if chunk["lo"] == 1:
                 for bad in ([0], [9], [1, {"$tip": "Any"}], [{"$tip": "Any"}], [1.0], ["1"], [1, 0], [{"$none": 1}]):
                     for ep in ("evo_aspirate", "evo_dispense", "evo_wash"):
                         yield {"ep": ep, "tip": bad, "invalid": True}
 
     # --------------------------------------------------------------
+    def call(self, ep, wl, src, dst, tip):
+        if ep == "prep":
+            return prepare_aspirate_dispense_parameters("S", 1, 10.0, "", tip, "", "", "", "")
+        if ep == "aspirate_well":
+            wl.aspirate_well("S", 1, 10.0, tip=tip)
+        elif ep == "dispense_well":
+            wl.dispense_well("S", 1, 10.0, tip=tip)
+        elif ep == "aspirate":
+            wl.aspirate(src, ["A01", "B02"], 10.0, tip=tip)
+        elif ep == "dispense":
+            wl.dispense(dst, ["A01", "B02"], 10.0, tip=tip)
+        else:
+            wl.transfer(src, ["A01", "B01"], dst, ["A02", "B01"], [10.0, 20.0], tip=tip)
+        return None
+
+    def one_mutate(self, case):
+        ep = case["ep"]
+        tips = dec(case["tip"])  # one list object for both calls
+        src = rt.Labware("S", 2, 2, min_volume=0, max_volume=1000, initial_volumes=500)
+        dst = rt.Labware("D", 2, 2, min_volume=0, max_volume=1000)
+        wl = rt.FluentWorklist() if ep in ("transfer_f", "dispense") else rt.EvoWorklist()
+        try:
+            self.call(ep, wl, src, dst, tips)
+        except Exception as e:
+            return "mutate:first-raised", repr(case), [("C10/valid-tip-rejected", f"{ep}(tip={case['tip']!r}): {type(e).__name__}")]
+        del wl[:]
+        kind = case["edit"][0]
+        if kind == "append":
+            tips.append(dec(case["edit"][1]))
+        elif kind == "set":
+            tips[:] = dec(case["edit"][1])
+        else:
+            tips.pop()
+        now = list(tips)
+        valid = all((isinstance(t, int) and not isinstance(t, bool) and (1 <= int(t) <= 8 or (hasattr(t, "name") and t.name != "Any"))) for t in now) and all(not (hasattr(t, "name") and t.name == "Any") for t in now)
+        want = 0
+        for t in now:
+            if hasattr(t, "name") and t.name.startswith("T"):
+                want |= 1 << (int(t.name[1:]) - 1)
+            elif isinstance(t, int) and 1 <= t <= 8:
+                want |= 1 << (t - 1)
+        exc, r = None, None
+        try:
+            r = self.call(ep, wl, src, dst, tips)
+        except Exception as e:
+            exc = e
+        what = f"{ep}: the list {case['tip']!r} was edited in place ({case['edit']}) to {now!r} and passed again"
+        if not valid or not now:
+            if not now:
+                return "mutate:empty", None, []
+            if exc is None:
+                return "mutate:invalid:accepted", repr(case), [("C10/invalid-tip-accepted", f"{what}; accepted, records {list(wl)[:2]}")]
+            return "mutate:invalid:raised", repr(case), []
+        if exc is not None:
+            return "mutate:raised", repr(case), [("C10/valid-tip-rejected", f"{what}: {type(exc).__name__}: {exc}")]
+        masks = [int(r[4])] if ep == "prep" else [gwl.parse(x)["tip_mask"] for x in wl if x[0] in "AD"]
+        V = [("C10/mask", f"{what}: masks {masks}, expected {want}")] if any(m != want for m in masks) or not masks else []
+        return "mutate:ok", repr(case), V
+
     def one(self, case):
+        if case.get("k") == "mutate":
+            return self.one_mutate(case)
         ep = case["ep"]
         if ep.startswith("evo_"):
             return self.one_evo(case)
@@ -199,6 +272,8 @@ class Harness(cm.BaseB):
             # large volumes that differ only in the last emitted digit
             vols = [1000.01 + 0.01 * i for i in range(n)]
             maxv = 5000
+        if "zero" in case:
+            vols[case["zero"]] = 0.0 if case["zero"] % 2 == 0 else 0.004
         exc = None
         try:
             if ep == "evo_wash":
